@@ -296,6 +296,29 @@ func (vc *FuncVC) opaqueCall(name, kind string, sig *types.Signature) *Val {
 func (vc *FuncVC) havocOpaque(tag string) {
 	pre := vc.cur
 	vc.cur = pre.havoc(tag)
+	// objects allocated here whose address has not escaped yet are out of the callee's reach
+	if vc.curInstr != nil {
+		for _, a := range vc.unescapedAllocs(vc.curInstr) {
+			elem := a.Type().Underlying().(*types.Pointer).Elem()
+			ref := vc.vals[a].T
+			var locs []*Loc
+			switch u := elem.Underlying().(type) {
+			case *types.Struct:
+				locs = vc.structLocs(elem, ref)
+			case *types.Array:
+				_ = u
+				continue
+			default:
+				locs = []*Loc{{Comp: vc.cellComp(elem, ""), Ref: ref, Typ: elem}}
+			}
+			for _, l := range locs {
+				if vc.protected(l.Comp) {
+					continue
+				}
+				vc.assume(Eq(vc.loadLoc(vc.cur, l), vc.loadLoc(pre, l)))
+			}
+		}
+	}
 	if vc.C == nil {
 		return
 	}
